@@ -974,7 +974,16 @@ def main(tier, replay=None):
             for d, x in zip(ds, [y for y in out if "stats" not in y]):
                 if "skipped" in x:
                     continue
-                if "bad" not in x or x["bad"].startswith("dev:"):
+                if "bad" in x and x["bad"].startswith("dev:"):
+                    # the real code shows a recorded deviation, and so does its source under Eval.tla: model and code
+                    # agree with each other and disagree with the reference.  The deviation is not open (an open one
+                    # is admitted above) - a repaired defect is back: a verdict, reported under the deviation's key
+                    keys[x["bad"]] = keys.get(x["bad"], 0) + 1
+                    info = dict(x["info"])
+                    info["source_under_Eval_tla"] = d["src"]
+                    rep.disagree(info, key=x["bad"])
+                    continue
+                if "bad" not in x:
                     raise C.ToolError("the std source evaluated by Eval.tla yields %s for `%s`, which neither the reference "
                                       "nor an open deviation admits, but the real code yields %s: Eval.tla and the "
                                       "implementation differ on std's own source"
